@@ -478,7 +478,8 @@ def advance (q : Quirks) (c : Cfg) :
       if j.filled.length ≥ width then
         -- the join is complete: what follows the fan-out state goes on; the held events (and replies) are released
         let release : List Act := (j.heldEv.map (fun p => Act.ackEv p.2)) ++ (j.heldRp.map .ackRp)
-        let js' := dropJoin js f.jid
+        -- (the engine keeps the record of a join that has completed: whatever is delivered to it again completes it again)
+        let js' := if q.batchRelaunched then setJoin js { j with heldEv := [], heldRp := [] } else dropJoin js f.jid
         match f.rest, outer with
         | .done, g :: outer' =>
           -- a nested fan-out ends its branch: its result goes into the enclosing join
@@ -546,6 +547,12 @@ def onReply (q : Quirks) (c : Cfg) (corr : Nat) (v : Vol) : Option (List Act × 
     | _ => none
   | none => none
 
+/-- does the engine have attempts of execution `owner` on record (its branch metadata, made when the first event of a branch is
+delivered or the first result arrives — not when a fan-out state launches its branches) -/
+def hasRecords (c : Cfg) (v : Vol) (owner : Option Nat) : Bool :=
+  v.joins.any (fun j => !j.filled.isEmpty || j.dead || j.ended) ||
+    c.evq.any (fun m => m.unacked && evOwner m.kind == owner && !(evJids m.kind).isEmpty)
+
 /-- The event is dropped (`branch_has_terminated`): it belongs to a fan-out attempt that is over, or — an event delivered for
 the first time, at the top level or when the engine has no attempt of the execution on record — to an execution whose record
 says that it has ended, or the engine has kept the attempts of the execution on record after its end. -/
@@ -553,7 +560,7 @@ def inDeadJoin (q : Quirks) (c : Cfg) (v : Vol) (m : QEv) : Bool :=
   (evJids m.kind).any (deadJid q c v) ||
     ((evOwner m.kind).isNone &&
       ((!(evJids m.kind).isEmpty && v.joins.any (·.ended)) ||
-       (c.notes > 0 && !m.redelivered && ((evJids m.kind).isEmpty || v.joins.isEmpty)) ||
+       (c.notes > 0 && !m.redelivered && ((evJids m.kind).isEmpty || !hasRecords c v none)) ||
        (c.failed > 0 && !q.attemptFailureForgotten)))
 
 /-- … it is acknowledged; when the engine has the attempt on record the attempt is now over as well, and is tidied up -/
@@ -629,8 +636,9 @@ def step (q : Quirks) (c : Cfg) (op : Op) (cut : Option Nat) : Option Cfg :=
     | none => none
     | some m =>
       let v := { c.vol with timers := c.timers.erase id }
-      -- (the deferred handler looks again: the attempt may have failed since the event was accepted)
-      if inDeadJoin q c v m then some (c.handler (dropEv q c v m).1 (dropEv q c v m).2 cut) else
+      -- (the deferred handler of a Task, Parallel or Map state looks again: the attempt may have failed since the event was
+      -- accepted; a Wait that is over does not)
+      if !waitVisit m.kind && inDeadJoin q c v m then some (c.handler (dropEv q c v m).1 (dropEv q c v m).2 cut) else
       match m.kind with
       | .reenter f from_ stack owner => some (c.handler (launch f from_ stack owner ++ [.ackEv id]) v cut)
       | .visit todo stack _ owner =>
